@@ -67,6 +67,8 @@ def gen_case(rng, tier, idx):
                     cs = [rng.choice(pool)]
                 members[str(k)] = {"form": form, "ctxs": sorted(cs),
                                    "outcome": rng.choice(["ok", "ok", "ok", "ok", "skip", "ce", "boom", "cpe"]),
+                                   # a value that is there but falsy (an empty listing, an empty string, 0)
+                                   "falsy": rng.choice([None] * 9 + ["", 0, {}, []]),
                                    "helper_outcome": rng.choice(["ok"] * 6 + ["skip", "boom"])}
         classes.append(members)
     case = {"points": points, "classes": classes}
@@ -142,6 +144,8 @@ def run_case(spec, ctx):
                         h = mk_ds("h2_" + tag, "ok", [h], "helper2")
                     deps = [h]
                 value = [tag + "#0", tag + "#1"] if spec["points"][k]["multi_output"] else tag
+                if m.get("falsy") is not None:
+                    value = [] if spec["points"][k]["multi_output"] else m["falsy"]
                 d = mk_ds(tag, m["outcome"], deps, value)
                 body["p%d" % k] = d
                 impls[k].append((set(m["ctxs"]), m["outcome"], tag, helper_ok, d, value))
@@ -221,6 +225,8 @@ def run_case(spec, ctx):
                         if got_parser != expp:
                             ctx.violation("parser-did-not-receive-the-latest-implementation-value", {"active": active, "point": k, "got": got_parser, "expected": expp})
                         ctx.count("winner_values_compared")
+                        if not w[5]:
+                            ctx.count("winner_values_that_are_falsy")
                     else:
                         if pts[k] in br:
                             ctx.violation("absent-spec-filled-from-overridden-implementation", {"active": active, "point": k, "got": repr(br.get(pts[k])),
